@@ -40,6 +40,10 @@ def key_classes(rng, quick):
         for v in (vals if not quick else [vals[k % 2]]):
             if 1 <= v < R:
                 out.append(("bitlen", v))
+    from . import curvegen as CG
+    for k in CG.endo_scalars(R)[: (8 if quick else 40)]:
+        if 1 <= k % R < R:
+            out.append(("boundary", k % R))                                 # eigenvalues of the curve endomorphism and neighbours
     for _ in range(8 if quick else 200):
         out.append(("random", rng.randrange(1, R)))
     for _ in range(2 if quick else 30):
